@@ -5,6 +5,7 @@ import ast
 
 from ..axes import AV, AxisEval, Ratio, RoleClash, Top, source
 from ..core import Ctx
+from ..loader import AnalysisError
 from ..normform import equal
 from ..specs import layout as L
 from ..symex import SUMMARIZER, expand, strip_ifexp_paths, u
@@ -25,9 +26,16 @@ def run(ctx: Ctx):
         "no display transform."
     )
     baselines(ctx)
+    source_table(ctx)
     factory(ctx)
+    from .common import slice_index_space
+
+    slice_index_space(ctx, "baseline-source.index-space")
     formula(ctx)
     independence(ctx)
+    from .common import no_shared_writes
+
+    no_shared_writes(ctx, "no-shared-write")
 
 
 def _ops_text(av: AV) -> str:
@@ -79,16 +87,69 @@ def baselines(ctx: Ctx):
     ctx.check_expr("baseline-valid-rows", f"{LY.MCM}::_BaseUnconditionalCubeCounts._valid_row_idxs", e, "np.ix_(self._dimensions[-2].valid_elements.element_idxs)", "valid rows of the ROWS dimension")
 
 
+def source_table(ctx: Ctx):
+    """`Cube.counts_with_missings` is a decision over which count measures the response carries.  Evaluated (DECTAB) for
+    all 16 presence combinations against the specified cascade - the SAME precedence by which the numerator's counts
+    are chosen (weighted valid counts, else unweighted valid counts, else weighted counts when the cube is weighted,
+    else unweighted counts): otherwise a weighted column share is divided by an unweighted row share."""
+    import itertools
+
+    from ..dectab import DTop, Raises, Sym, SymInterp
+
+    cube = ctx.repo.cls("cube.py", "Cube")
+    where = "cube.py::Cube.counts_with_missings"
+    if ctx.repo.lookup(cube, "counts_with_missings") is None:
+        raise AnalysisError("Cube.counts_with_missings vanished")
+    e = expand(ctx.repo, cube, "counts_with_missings", stop=lambda m: m.name not in ("counts_with_missings", "has_weighted_counts", "weighted_counts"))
+    names = ["weighted_valid_counts", "unweighted_valid_counts", "weighted_counts", "unweighted_counts"]
+    bad, n, undec = [], 0, None
+    for combo in itertools.product((True, False), repeat=3):
+        present = dict(zip(names[:3], combo))
+        present["unweighted_counts"] = True
+
+        def atoms(x, present=present):
+            t = u(x)
+            for nm in names:
+                if t == f"self._measures.{nm}":
+                    return Sym(f"self._measures.{nm}") if present[nm] else None
+            raise KeyError
+
+        class _I(SymInterp):
+            def compare(self, op, a, b):  # `X is None` / `is not None` on a present measure object
+                if isinstance(op, (ast.Is, ast.IsNot)) and (a is None or b is None):
+                    same = a is None and b is None
+                    return same if isinstance(op, ast.Is) else not same
+                return super().compare(op, a, b)
+
+        try:
+            got = _I(atoms).ev(e)
+        except (DTop, Raises) as exc:
+            undec = str(exc)
+            break
+        n += 1
+        want = next(f"self._measures.{nm}.raw_cube_array" for nm in names if present[nm])
+        got_t = got.text if isinstance(got, Sym) else repr(got)
+        if got_t != want:
+            bad.append(f"{ {k: v for k, v in present.items() if k != 'unweighted_counts'} }: {got_t} (specified {want})")
+    ctx.count("count-measure presence combinations", n)
+    if undec:
+        ctx.undecided("baseline-source.cascade", where, "DECTAB: " + undec, "cascade over the count measures present")
+    else:
+        ctx.ob("baseline-source.cascade", where, bad[:3] or f"{n} presence combinations", "weighted valid > unweighted valid > weighted > unweighted counts (raw arrays incl. missing elements)", not bad,
+               "the baseline uses the same counts (and weighting) as the column proportion it is compared with")
+
+
 def factory(ctx: Ctx):
     ci = ctx.repo.cls(LY.MCM, "_BaseUnconditionalCubeCounts")
     body = LY.factory_body(ctx, ci)
-    want = "cube.counts_with_missings[cls._slice_idx_expr(cube, slice_idx)]"
+    want = ["cube.counts_with_missings[cls._slice_idx_expr(cube, slice_idx)]",
+            "(cube.counts_with_missings[np.array(cube.dimensions[0].valid_elements.element_idxs)] if len(cube.dimension_types) > 2 else cube.counts_with_missings)[cls._slice_idx_expr(cube, slice_idx)]"]
     n_leaves = 0
     for guards, leaf in strip_ifexp_paths(body):
         if isinstance(leaf, ast.Call) and len(leaf.args) >= 2 and not (isinstance(leaf.func, ast.Name) and leaf.func.id.startswith("__")):
             n_leaves += 1
             tag = " & ".join(("" if pol else "not ") + u(g)[:50] for g, pol in guards if "dimension_types[-2:]" not in u(g) and "dimension_types ==" not in u(g))
-            ctx.check_expr("baseline-source", f"{LY.MCM}::_BaseUnconditionalCubeCounts.factory" + (f" [{tag}]" if tag else ""), leaf.args[1], [want],
+            ctx.check_expr("baseline-source", f"{LY.MCM}::_BaseUnconditionalCubeCounts.factory" + (f" [{tag}]" if tag else ""), leaf.args[1], want,
                            "the baseline is computed from the counts INCLUDING missing elements, restricted to this slice by the shared slice-index expression (selected plane of an MR tabs dimension)")
             # must-pass-through: the table of a 3-D cube is selected by the shared slice-index expression (which picks
             # the SELECTED plane of a multiple-response tabs dimension); a bare `[slice_idx]` keeps all three planes
@@ -101,6 +162,8 @@ def factory(ctx: Ctx):
                 elif idx == "slice_idx":
                     ctx.violated("baseline-source.slice-restriction", where, idx, "cls._slice_idx_expr(cube, slice_idx)",
                                  "the numerator (column proportion) is restricted to respondents who SELECTED the tabs item; a baseline over all planes of the tabs dimension compares it with a different population")
+                elif "valid_elements.element_idxs" in idx:
+                    pass  # the restriction of the table axis to its valid elements (index-space rule)
                 else:
                     ctx.undecided("baseline-source.slice-restriction", where, f"table selected by {idx}", "cls._slice_idx_expr(cube, slice_idx)")
     ctx.count("baseline constructor leaves", n_leaves)
